@@ -171,7 +171,7 @@ theorem C16_unregistered (hs : Handlers) (msg : Str) (mt : Option Str) (eid : Na
 
 /-- **C16 (non-HL7 payload → ERR handler with InvalidHL7Message).** -/
 theorem C16_not_hl7 (hs : Handlers) (msg : Str) (eid : Nat)
-    (hmt : Msg.getMessageType msg = .error .ParserError) (herr : hs.err = some eid) :
+    (e : Exc) (hmt : Msg.getMessageType msg = .error e) (herr : hs.err = some eid) :
     route hs msg = ⟨[.errHandler eid "InvalidHL7Message"], hs.errBehave "InvalidHL7Message" msg, true⟩ := by
   unfold route routeErr
   simp [hmt, herr]
